@@ -16,6 +16,9 @@
 #include <stdexcept>
 #include <functional>
 #include <algorithm>
+#include <csignal>
+#include <unistd.h>
+#include <fcntl.h>
 
 namespace vh {
 
@@ -41,20 +44,38 @@ inline std::string jesc(const std::string& s) {
 }
 
 // ---- outputs of one harness run: <out>/requests.txt, impl.txt (one line per request), oracle.jsonl, stats.json ----
+// ---- progress watchdog: every corr()/count()/fail() re-arms a 15-minute alarm.  A harness that makes no progress for that long is
+// executing a case that does not terminate (cases take milliseconds to seconds); it is stopped with exit status 98 after appending
+// the last request it had issued to <out>/lastcase.txt, and the check reports the abort with that position as the replay.
+struct Watchdog {
+    static char* last() { static char buf[700]; return buf; }
+    static char* path() { static char buf[600]; return buf; }
+    static void on_alarm(int) {
+        int fd = open(path(), O_WRONLY | O_CREAT | O_APPEND, 0644);
+        if (fd >= 0) { const char* m = "\nWATCHDOG: no progress for 900 s (a case that does not terminate); last request issued before it: ";
+                       ssize_t r = write(fd, m, strlen(m)); r = write(fd, last(), strlen(last())); r = write(fd, "\n", 1); (void) r; close(fd); }
+        const char* e = "WATCHDOG: no progress for 900 s, harness stopped\n"; ssize_t r2 = write(2, e, strlen(e)); (void) r2;
+        _exit(98);
+    }
+    static void arm(const std::string& dir) { std::snprintf(path(), 600, "%s/lastcase.txt", dir.c_str()); std::signal(SIGALRM, on_alarm); alarm(900); }
+    static void tick(const std::string* req = nullptr) { if (req) { std::strncpy(last(), req->c_str(), 690); last()[690] = 0; } alarm(900); }
+};
+
 struct Out {
     std::string dir;
     std::ofstream req, impl, oracle;
     std::map<std::string, long> counters;
     std::vector<std::string> samples;
     long nreq = 0, nfail = 0;
-    explicit Out(const std::string& d) : dir(d), req(d + "/requests.txt"), impl(d + "/impl.txt"), oracle(d + "/oracle.jsonl") {}
+    explicit Out(const std::string& d) : dir(d), req(d + "/requests.txt"), impl(d + "/impl.txt"), oracle(d + "/oracle.jsonl") { Watchdog::arm(d); }
     // a correspondence case: request for the model driver + the implementation's canonical answer
-    void corr(const std::string& request, const std::string& response) { req << request << "\n"; impl << response << "\n"; nreq++; if (samples.size() < 6 && request.size() < 400) samples.push_back(request + " -> " + response); }
+    void corr(const std::string& request, const std::string& response) { Watchdog::tick(&request); req << request << "\n"; impl << response << "\n"; nreq++; if (samples.size() < 6 && request.size() < 400) samples.push_back(request + " -> " + response); }
     // an oracle (property predicate) failure on the implementation; `sig` identifies the kind for known-finding matching
     void fail(const std::string& sig, const std::string& what, const std::string& replay_json) {
+        Watchdog::tick();
         oracle << "{\"sig\":\"" << jesc(sig) << "\",\"what\":\"" << jesc(what) << "\",\"replay\":" << replay_json << "}\n"; nfail++;
     }
-    void count(const std::string& k, long by = 1) { counters[k] += by; }
+    void count(const std::string& k, long by = 1) { Watchdog::tick(); counters[k] += by; }
     void finish() {
         std::ofstream st(dir + "/stats.json");
         st << "{\"requests\":" << nreq << ",\"oracle_failures\":" << nfail << ",\"counters\":{";
@@ -62,6 +83,7 @@ struct Out {
         st << "},\"samples\":["; first = true; for (auto& s : samples) { if (!first) st << ","; first = false; st << "\"" << jesc(s) << "\""; }
         st << "]}\n";
         req.flush(); impl.flush(); oracle.flush();
+        alarm(0);
     }
 };
 
